@@ -66,7 +66,24 @@ pub fn exec_case(w: &mut World, case: &Value) -> Value {
         evs.push(e);
         evs.push(json!({"e": "exit", "id": i as u64 + 1, "t": 2 + i as u64}));
     }
-    evs.push(json!({"e": "health", "t": 100}));
+    // the same rule again after time has passed (token buckets refill, windows roll, waits elapse): the large
+    // batch first, since the first request after a gap takes the refill paths
+    let mut t = 20u64;
+    let mut id = 100u64;
+    for gap in [1300u64, 3100, 61_000] {
+        t += gap;
+        for k in [6usize, 3, 0] {
+            let mut e = entry_shapes()[k].clone();
+            id += 1;
+            e["e"] = json!("enter");
+            e["id"] = json!(id);
+            e["t"] = json!(t);
+            evs.push(e);
+            evs.push(json!({"e": "exit", "id": id, "t": t + 1}));
+            t += 2;
+        }
+    }
+    evs.push(json!({"e": "health", "t": t + 100}));
     let out = w.exec(&evs);
     let mut c = case.clone();
     let ld = &out[load_idx];
@@ -121,23 +138,70 @@ pub fn run(path: &str, jobs: usize, out: &mut Out) {
         handles.push(std::thread::spawn(move || {
             let mut results: Vec<Value> = Vec::new();
             let mut pos = lo;
+            let cases = read_behaviours(&path);
             while pos < hi {
-                let o = std::process::Command::new(&exe)
+                // the worker's lines are read through a channel so that a case that never returns (a hang is
+                // not a panic) is noticed: 40 s without a line = the case at `pos` hangs
+                use std::io::BufRead;
+                let mut child = std::process::Command::new(&exe)
                     .args(["space-worker", "--in", &path, "--from", &pos.to_string(), "--to", &hi.to_string()])
-                    .output()
+                    .stdout(std::process::Stdio::piped())
+                    .stderr(std::process::Stdio::null())
+                    .spawn()
                     .expect("spawn worker");
-                let lines: Vec<Value> = String::from_utf8_lossy(&o.stdout)
-                    .lines()
-                    .filter_map(|l| serde_json::from_str(l).ok())
-                    .collect();
-                let got = lines.len();
-                let take = got.min(hi - pos);
-                results.extend(lines.into_iter().take(take));
-                pos += take;
-                if o.status.success() {
+                let stdout = child.stdout.take().unwrap();
+                let (tx, rx) = std::sync::mpsc::channel::<Option<Value>>();
+                let reader = std::thread::spawn(move || {
+                    for l in std::io::BufReader::new(stdout).lines() {
+                        match l {
+                            Ok(l) => {
+                                if let Ok(v) = serde_json::from_str::<Value>(&l) {
+                                    if tx.send(Some(v)).is_err() {
+                                        return;
+                                    }
+                                }
+                            }
+                            Err(_) => break,
+                        }
+                    }
+                    let _ = tx.send(None);
+                });
+                let mut got = 0usize;
+                let mut hung = false;
+                loop {
+                    match rx.recv_timeout(std::time::Duration::from_secs(40)) {
+                        Ok(Some(v)) => {
+                            if pos + got < hi {
+                                results.push(v);
+                                got += 1;
+                            }
+                        }
+                        Ok(None) => break,
+                        Err(_) => {
+                            hung = true;
+                            let _ = child.kill();
+                            break;
+                        }
+                    }
+                }
+                let status = child.wait().ok();
+                let _ = reader.join();
+                pos += got;
+                if hung {
+                    if pos < hi {
+                        let mut c = cases[pos][0].clone();
+                        c["hang"] = json!(true);
+                        c["health"] = json!("bad:hang");
+                        c["entries"] = json!([]);
+                        results.push(c);
+                        pos += 1;
+                    }
+                    continue;
+                }
+                if status.map(|s| s.success()).unwrap_or(false) {
                     break;
                 }
-                if take == 0 {
+                if got == 0 {
                     // the worker died before reporting the case at `pos`: record it as a crash
                     results.push(json!({"crash": true, "index": pos, "health": "bad:worker died", "entries": [], "fam": "?", "op": "?", "res": "", "rule": {"id": "?"}}));
                     pos += 1;
